@@ -62,6 +62,8 @@ class CContract:
                     self.raises_none = True
                 else:
                     self.raises.append((ast.literal_eval(a0), kw.get("when")))
+                    if "may" in kw:
+                        self.may_raise = getattr(self, "may_raise", set()) | {ast.literal_eval(a0)}
 
 
 _CONTRACTS = None
@@ -251,7 +253,16 @@ def run_case(qualname, recipes, caller=None):
         if call is not None:
             result = call(args)
         else:
-            result = resolve(qualname)(**args)
+            fn = resolve(qualname)
+            call_args = dict(args)
+            try:
+                import inspect
+                for pn, prm in inspect.signature(fn).parameters.items():
+                    if prm.kind is inspect.Parameter.VAR_KEYWORD and isinstance(call_args.get(pn), dict):
+                        call_args.update(call_args.pop(pn))       # a recipe for **kwargs is spread into keywords
+            except (TypeError, ValueError):
+                pass
+            result = fn(**call_args)
         outcome = ("return", result)
     except BaseException as e:       # noqa: the contract decides which exceptions are allowed
         if isinstance(e, (KeyboardInterrupt, SystemExit)):
@@ -297,7 +308,7 @@ def run_case(qualname, recipes, caller=None):
             return rep
     rep["outcome"] = f"return {repr(result)[:300]}"
     for en, when in c.raises:
-        if when is not None and ev(when, ns):
+        if when is not None and en not in getattr(c, "may_raise", ()) and ev(when, ns):
             rep["violations"].append(f"raises[{en}]/must-raise")
     ns["result"] = result
     if c.returns is not None and c.returns_checked:
